@@ -12,6 +12,7 @@ import (
 	"math/rand"
 	"os"
 	"path/filepath"
+	"runtime/debug"
 	"sort"
 	"strconv"
 )
@@ -112,6 +113,22 @@ func (c *Ctx) Violate(kind, key, desc string, replay interface{}) {
 
 type runner func(c *Ctx)
 
+// safeRun: an implementation panic that escapes a stream (outside the calls the streams guard themselves) is a finding with
+// the stack as replay, not a crash of the machinery.
+func safeRun(c *Ctx, r runner) {
+	defer func() {
+		if x := recover(); x != nil {
+			st := string(debug.Stack())
+			if len(st) > 6000 {
+				st = st[:6000]
+			}
+			c.Violate("panic", "crash:implementation-panicked", fmt.Sprintf("the implementation panicked while the %s stream was running: %v", c.Prop, x),
+				map[string]interface{}{"op": "panic escaped a case stream", "panic": fmt.Sprint(x), "stack": st})
+		}
+	}()
+	r(c)
+}
+
 var runners = map[string]runner{}
 
 // extras: additional case streams appended to a property's runner (registered from other files' init functions)
@@ -143,9 +160,9 @@ func main() {
 	}
 	c := &Ctx{Prop: *prop, Tier: *tier, Seed: *seed, Out: *out, R: rand.New(rand.NewSource(*seed)), seen: map[string]bool{}}
 	c.Rep = &Report{Property: *prop, Tier: *tier, Seed: *seed, Distribution: map[string]int{}, Descs: map[string][]string{}}
-	run(c)
+	safeRun(c, run)
 	for _, ex := range extras[*prop] {
-		ex(c)
+		safeRun(c, ex)
 	}
 	for _, cs := range c.sets {
 		if len(cs.Cases) == 0 {
